@@ -113,11 +113,11 @@ CHECKS['C03'] = dict(
     parallel=8,
 )
 
-MD = [0x007, 0x038, 0x1c0, 0xe00, 0x7000, 0x10000]
+MD = [0x007, 0x038, 0x1c0, 0xe00, 0x7000, 0x30000]
 CHECKS['C04'] = dict(
     title="dispatch reaches exactly the dispatched event's listeners, arguments intact",
     level='exploration',
-    rule='16 dispatcher configurations (one with two custom mixins: by-value parameters - must not consume what the listeners get - and by-reference parameters that change an argument - must run exactly once and be seen by the listeners; keys: int, enum class, std::string, OrdKey(<)->std::map, HashKey(hash,==)->unordered_map with 4 buckets; prototypes by value / const& / & ; '
+    rule='17 dispatcher configurations (one in the exclude-event form whose getEvent policy reads a later by-value movable argument; one with two custom mixins: by-value parameters - must not consume what the listeners get - and by-reference parameters that change an argument - must run exactly once and be seen by the listeners; keys: int, enum class, std::string, OrdKey(<)->std::map, HashKey(hash,==)->unordered_map with 4 buckets; prototypes by value / const& / & ; '
          'include- and exclude-event forms; getEvent policies reading a field, a by-value movable argument (taken by const& and BY VALUE) and a non-identity policy in the exclude-event form; user map; custom Callback; 3 threading policies) x seeded histories of '
          'append/prepend/insert/remove/hasAnyListener/ownsHandle/forEach/forEachIf per key over 5 keys (differing only in case/length, empty) interleaved with dispatches whose arguments are '
          'lvalues, const lvalues and temporaries; listeners consume whatever they receive as rvalues; every listener call is checked (which listener, order, argument fingerprints) online; '
